@@ -11,7 +11,7 @@
          current code, i.e. the refutation of the full-strength statement.
    The runtime clause for the compiled code is decided by observation in the correspondence run (checks/C02.py). *)
 From CSL Require Import Base.Prelude Base.Hex Cbor.Head Cbor.Item Codec.Schema Codec.SchemaProofs Ledger.Schemas Ledger.SchemasProofs
-  Total.Partial Total.Decoders Total.SchemaTotal Total.TotalProofs Total.ItemLink.
+  Total.Partial Total.Decoders Total.SchemaTotal Total.TotalProofs Total.ItemLink Total.ReserialiseFull.
 
 Local Notation never_panics r := (r <> Panic /\ r <> OutOfFuel).
 
@@ -29,9 +29,19 @@ Theorem C02_reserialise_wf : forall s v, wfs s = true -> wfv s v = true -> item_
 Proof. exact schema_enc_item_wf. Qed.
 Print Assumptions C02_reserialise_wf.
 
-(* ... hence so is the re-serialisation of what a successful decode of writer output (followed by anything) returns.
-   PARTIAL: the statement for an arbitrary accepted input, C02_reserialise_full below, is not proved; on the
-   implementation it is checked per case by the extracted item_wf. *)
+(* ... and so is the re-serialisation of what the decoder returns for ANY accepted input (non-minimal heads, unsorted or
+   duplicate keys, any chunking, anything behind the item), for every ledger type; premises: the input is made of
+   bytes and is shorter than 2^60 bytes *)
+Theorem C02_reserialise_full : forall d s, In s (ledger_schemas d) ->
+  forall bs v rest, bytes_ok bs -> (N.of_nat (length bs) < 1152921504606846976)%N -> dec s bs = Ok (v, rest) ->
+  item_wf (enc s v) = true.
+Proof.
+  intros d s Hin bs v rest Hb Hl H. apply (schema_reserialise_full s bs v rest); [|exact Hb|exact Hl|exact H].
+  exact (proj1 (Forall_forall _ _) (ledger_schemas_wf d) s Hin).
+Qed.
+Print Assumptions C02_reserialise_full.
+
+(* the instance on writer output followed by anything (no length premise needed: the round-trip theorem gives v' = v) *)
 Theorem C02_reserialise_after_decode_wf : forall d s, In s (ledger_schemas d) ->
   forall v rest v' rest', wfv s v = true -> dec s (enc s v ++ rest) = Ok (v', rest') -> item_wf (enc s v') = true.
 Proof.
@@ -39,8 +49,6 @@ Proof.
   exact (proj1 (Forall_forall _ _) (ledger_schemas_wf d) s Hin).
 Qed.
 Print Assumptions C02_reserialise_after_decode_wf.
-Definition C02_reserialise_full : Prop :=
-  forall s bs v rest, wfs s = true -> bytes_ok bs -> dec s bs = Ok (v, rest) -> item_wf (enc s v) = true.
 
 (* ---- hand-written decoders (repaired code), allocator that never refuses ---- *)
 Theorem C02_address_total : forall ignore_leftover data,
@@ -164,6 +172,11 @@ Example C02_nonvacuous_address :
   address_from_bytes None false (65 :: repeat 7 28 ++ [128; 5; 2; 3])%N = Ok (65 :: repeat 7 28 ++ [5; 2; 3])%N /\
   address_from_bytes None false [] = Err.
 Proof. repeat split; vm_compute; reflexivity. Qed.
+
+Example C02_nonvacuous_full :
+  let bs := [130; 25; 0; 5; 24; 7]%N in      (* ProtocolVersion [5, 7] with 3-byte and 2-byte heads *)
+  bytes_ok bs /\ dec ProtocolVersion bs = Ok (VList [VNat 5; VNat 7]%N, []) /\ enc ProtocolVersion (VList [VNat 5; VNat 7]%N) = [130; 5; 7]%N.
+Proof. cbv zeta. split; [repeat constructor; lia|]. split; vm_compute; reflexivity. Qed.
 
 Example C02_nonvacuous_reserialise :
   let v := VStruct [Some (VList [VList [VBytes (repeat 7%N 32); VNat 0%N]]); Some (VList []); Some (VNat 170000%N);
